@@ -15,6 +15,8 @@ from typing import Dict, List, Optional, Any, AbstractSet, Union, Set, Sequence,
 import numbers
 import warnings
 
+import sympy
+
 from qupulse.serialization import Serializer, PulseRegistryType
 from qupulse.parameter_scope import Scope
 
@@ -321,19 +323,27 @@ class ParallelChannelPulseTemplate(PulseTemplate):
 
         duration = self._template.duration
         for channel, value in self._overwritten_channels.items():
-            integral[channel] = value * duration
+            if 't' in value.variables:
+                # time dependent value (only allowed on atomic templates): integrate over the pulse
+                integral[channel] = ExpressionScalar(sympy.integrate(value.sympified_expression,
+                                                                     ('t', 0, duration.sympified_expression)))
+            else:
+                integral[channel] = value * duration
         return integral
 
     @property
     def initial_values(self) -> Dict[ChannelID, ExpressionScalar]:
         values = self._template.initial_values
-        values.update(self._overwritten_channels)
+        for channel, value in self._overwritten_channels.items():
+            values[channel] = value.evaluate_symbolic({'t': 0}) if 't' in value.variables else value
         return values
 
     @property
     def final_values(self) -> Dict[ChannelID, ExpressionScalar]:
         values = self._template.final_values
-        values.update(self._overwritten_channels)
+        for channel, value in self._overwritten_channels.items():
+            values[channel] = (value.evaluate_symbolic({'t': self._template.duration})
+                               if 't' in value.variables else value)
         return values
 
     def get_serialization_data(self, serializer: Optional[Serializer]=None) -> Dict[str, Any]:
